@@ -17,7 +17,21 @@ CLIENT_ID = b"IOSclient-gv"
 CLIENT_ADDR = ("10.0.0.2", 40001)
 
 
-def blocks(N, rng, coded=False):
+TAGS = [b"</DATAS>", b"<DATAS>", b"</PACKT>", b"<PACKT>", b"</DATAS></PACKT>", b"</SRCCN>", b"</DESCN><DATAS>", b"STATV", b"<HELLO>"]
+
+
+def blocks(N, rng, coded=False, tags=False):
+    if tags:
+        # block bytes are arbitrary: the protocol's own tag text is legal content
+        spa = bytearray(rng.randrange(256) for _ in range(N))
+        for _ in range(max(2, N // 60)):
+            t = rng.choice(TAGS)
+            if len(t) < N:
+                p = rng.randrange(0, N - len(t))
+                spa[p:p + len(t)] = t
+        spa = bytes(spa)
+        old = bytes((b + 1 + rng.randrange(255)) % 256 for b in spa)
+        return spa, old
     if coded:
         spa = bytes((p % 250) + 1 for p in range(N))
         old = bytes(0 for _ in range(N))
@@ -283,7 +297,7 @@ class SyncRig(_Base):
         untouched, so the log of the new transfer starts from the same old block)"""
         from geckolib.driver import GeckoStatusBlockProtocolHandler
         from geckolib.config import GeckoConfig
-        if not self.done() or self.ok():
+        if self.ok():
             raise env.MachineryError("restart: the previous transfer has not failed")
         self.start, self.length = start, length
         self.bag, self.log, self._seen = [], [], 0
